@@ -353,8 +353,15 @@ func (p *Prog) lockHeldAt(at ssa.Instruction, isLock func(ssa.Value) bool) bool 
 }
 
 func c05lock(p *Prog, r *Report) {
-	const rule = "C05.lock"
-	r.Rule(rule, 10, "every call site of a pool writer / core mutator (addTransactions, addInternalTransaction, sync, addSelfEvent, processSigPool, fastForward, recordHeads) reachable from a concurrent root holds Node.coreLock, in the calling function or in every caller (closure over callers, depth 4)")
+	lockRule(p, r, "C05.lock", named(NODE+".core.addTransactions", NODE+".core.addInternalTransaction", NODE+".core.sync", NODE+".core.addSelfEvent",
+		NODE+".core.processSigPool", NODE+".core.fastForward", NODE+".core.recordHeads"), 10,
+		"every call site of a pool writer / core mutator (addTransactions, addInternalTransaction, sync, addSelfEvent, processSigPool, fastForward, recordHeads) reachable from a concurrent root holds Node.coreLock, in the calling function or in every caller (closure over callers, depth 4)",
+		"it writes state (pools, promises map, hashgraph) that RPC handlers and gossip routines access under the lock — lost update or fatal concurrent map write", true)
+}
+
+// lockRule: every call site of the target core methods holds Node.coreLock (in the calling function or in every caller).
+func lockRule(p *Prog, r *Report, rule string, targets fnMatch, min int, descr, consequence string, lockerArgs bool) {
+	r.Rule(rule, min, descr)
 	fLock := p.Field(NODE, "Node", "coreLock")
 	if fLock == nil {
 		r.Anchor(rule, "node.Node.coreLock")
@@ -371,8 +378,6 @@ func c05lock(p *Prog, r *Report) {
 		}
 		return false
 	}
-	targets := named(NODE+".core.addTransactions", NODE+".core.addInternalTransaction", NODE+".core.sync", NODE+".core.addSelfEvent",
-		NODE+".core.processSigPool", NODE+".core.fastForward", NODE+".core.recordHeads")
 	// single-threaded contexts: construction and Init (before any goroutine is started)
 	initCtx := map[*ssa.Function]bool{}
 	for _, n := range [][3]string{{NODE, "Node", "Init"}, {NODE, "", "NewNode"}, {NODE, "", "newCore"}} {
@@ -431,10 +436,13 @@ func c05lock(p *Prog, r *Report) {
 		ord[key]++
 		ok, why := heldAtSite(site, 4, map[*ssa.Function]bool{})
 		r.Check(ok, rule, fmt.Sprintf("%s#%d:coreLock-held", key, ord[key]), p.ipos(site), fnName(site.Parent()), "Node.coreLock held",
-			"core."+callee+" is called without Node.coreLock: unlocked chain "+why+"; it writes state (pools, promises map, hashgraph) that RPC handlers and gossip routines access under the lock — lost update or fatal concurrent map write")
+			"core."+callee+" is called without Node.coreLock: unlocked chain "+why+"; "+consequence)
 	}
 	if n == 0 {
 		r.Fail(rule, "core-mutators:call-sites", "-", "", "no call site of a core mutator found")
+	}
+	if !lockerArgs {
+		return
 	}
 	// a Locker handed to a core method must be the node's core lock
 	for _, fn := range p.Mod {
